@@ -47,6 +47,7 @@ SHM_SIZE_MAX_INSIDE = 2**48
 
 def str_grid(rng):
     return ["", "a", "0123456789abcdef01234567", string.printable.strip()[:90], "k" * 200, "x" * 255, "y" * 256, "z" * 257, "w" * 700,
+            "q" * 1019, "r" * 1020, "s" * 1024, "t" * 5000, "u" * 70000,     # beyond one datagram: may be refused, must never come back shorter
             "".join(rng.choice(string.ascii_letters + string.digits + "._-:/ ") for _ in range(rng.randint(1, 40)))]
 
 
